@@ -363,8 +363,9 @@ func (*BinaryStringExprNode) GetType() NodeType {
 }
 
 func (node *BinaryStringExprNode) IsSeekable() bool {
-	return (node.op == BinaryOpEQ || node.op == BinaryOpNEQ) &&
-		(node.left.IsConst() || node.right.IsConst())
+	// seeking to the compared value only decides equality: for != the element found by
+	// the seek is the one element that cannot satisfy the predicate
+	return node.op == BinaryOpEQ && (node.left.IsConst() || node.right.IsConst())
 }
 
 func (node *BinaryStringExprNode) EvalBoolWithSeek(s Symbols, cursor TypeSeekableSetCursor) bool {
